@@ -361,6 +361,9 @@ Fixpoint dot_free (s : string) : bool :=
   | EmptyString => true
   | String a s' => negb (is_dot a) && dot_free s'
   end.
+(* the same on the string: it does not start with a '.' ("" is the top level) *)
+Definition proper_path (s : string) : Prop :=
+  match s with String a _ => is_dot a = false | EmptyString => True end.
 Definition wf_path (p : path) : Prop :=
   Forall (fun x => dot_free x = true) p /\ (match p with x :: _ => x <> EmptyString | [] => True end).
 
